@@ -548,7 +548,7 @@ impl UseTree {
 
     // Do the adjustments that rustfmt does elsewhere to use paths.
     pub(crate) fn normalize(mut self) -> UseTree {
-        let mut last = self.path.pop().expect("Empty use tree?");
+        let last = self.path.pop().expect("Empty use tree?");
         // Hack around borrow checker.
         let mut normalize_sole_list = false;
         let mut aliased_self = false;
@@ -627,12 +627,24 @@ impl UseTree {
 
         // Recursively normalize elements of a list use (including sorting the list).
         if let UseSegmentKind::List(list) = last.kind {
-            let mut list = list.into_iter().map(UseTree::normalize).collect::<Vec<_>>();
+            let len = list.len();
+            // An element that imports nothing (`foo::{}`) is removed like a top-level one.
+            let mut list = list
+                .into_iter()
+                .map(UseTree::normalize)
+                .filter(|tree| !tree.path.is_empty() || tree.has_comment())
+                .collect::<Vec<_>>();
             list.sort();
-            last = UseSegment {
+            let removed = list.len() < len;
+            self.path.push(UseSegment {
                 kind: UseSegmentKind::List(list),
                 style_edition: last.style_edition,
-            };
+            });
+            if removed {
+                // The list may have become empty or a single element.
+                return self.normalize();
+            }
+            return self;
         }
 
         self.path.push(last);
